@@ -303,3 +303,51 @@ Definition cb_run (c : cbcfg) (draw : oracle) (rank : nat) : run :=
   | AssertFail => {| r_out := AssertFail; r_len := cb_E c / cb_W c; r_seeds := [(cb_seed c + cb_epoch c)%Z]; r_reqs := [] |}
   | Runaway => {| r_out := Runaway; r_len := cb_E c / cb_W c; r_seeds := [(cb_seed c + cb_epoch c)%Z]; r_reqs := [] |}
   end.
+
+(* ------------------------------------------------------------------ *)
+(* one sampler OBJECT over several epochs                               *)
+(*   set_epoch(e) only assigns self.epoch (torch's DistributedSampler,  *)
+(*   ClassBalancedSampler, WeightedSampler alike); __iter__ builds a    *)
+(*   fresh torch.Generator().manual_seed(seed + epoch) and assigns no   *)
+(*   attribute.  The object's state between calls is therefore its      *)
+(*   configuration with the current epoch.                              *)
+(* ------------------------------------------------------------------ *)
+Inductive op := SetEpoch (e : Z) | Iterate.
+
+Section Object.
+  Context {cfg : Type}.
+  Variable set_ep : cfg -> Z -> cfg.     (* state after set_epoch(e) *)
+  Variable iter : cfg -> run.            (* len(sampler) / list(sampler) in a state *)
+
+  (* what the successive list(sampler) calls of a call sequence show *)
+  Fixpoint run_ops (c : cfg) (ops : list op) : list run :=
+    match ops with
+    | [] => []
+    | SetEpoch e :: ops' => run_ops (set_ep c e) ops'
+    | Iterate :: ops' => iter c :: run_ops c ops'
+    end.
+End Object.
+
+(* the epoch in force at every Iterate of a call sequence *)
+Fixpoint iter_epochs (e0 : Z) (ops : list op) : list Z :=
+  match ops with
+  | [] => []
+  | SetEpoch e :: ops' => iter_epochs e ops'
+  | Iterate :: ops' => e0 :: iter_epochs e0 ops'
+  end.
+
+Definition d_set_epoch (c : dcfg) (e : Z) : dcfg :=
+  {| d_n := d_n c; d_W := d_W c; d_shuffle := d_shuffle c; d_seed := d_seed c; d_drop := d_drop c;
+     d_rep := d_rep c; d_epoch := e |}.
+Definition w_set_epoch (c : wcfg) (e : Z) : wcfg :=
+  {| w_n := w_n c; w_size := w_size c; w_seed := w_seed c; w_epoch := e; w_W := w_W c |}.
+Definition cb_set_epoch (c : cbcfg) (e : Z) : cbcfg :=
+  {| cb_classes := cb_classes c; cb_dim := cb_dim c; cb_spc_arg := cb_spc_arg c; cb_shuffle := cb_shuffle c;
+     cb_seed := cb_seed c; cb_epoch := e; cb_W := cb_W c |}.
+
+Definition dist_object (c : dcfg) (draw : oracle) (rank : nat) (ops : list op) : list run :=
+  run_ops d_set_epoch (fun c' => dist_run c' draw rank) c ops.
+Definition w_object (c : wcfg) (draw : oracle) (rank : nat) (ops : list op) : list run :=
+  run_ops w_set_epoch (fun c' => w_run c' draw rank) c ops.
+Definition cb_object (c : cbcfg) (draw : oracle) (rank : nat) (ops : list op) : list run :=
+  run_ops cb_set_epoch (fun c' => cb_run c' draw rank) c ops.
